@@ -785,11 +785,13 @@ class Emitter:
             return s.norm(rt, '%s %s %s' % (s.signed(rt, a), c, s.signed(rt, b))), checks
         if op in ('shl', 'lshr', 'ashr'):
             checks.append('%s < %d' % (b, rt.bits))
+            # the C expression itself must stay defined when the amount is too large (the LLVM result is poison, tracked separately)
+            g = '(%s < %d) ? ' % (b, rt.bits)
             if op == 'shl':
-                return s.norm(rt, '%s%s << %s' % (wide, a, b)), checks
+                return s.norm(rt, '%s(%s%s << %s) : 0' % (g, wide, a, b)), checks
             if op == 'lshr':
-                return s.norm(rt, '%s >> %s' % (a, b)), checks
-            return s.norm(rt, '%s >> %s' % (s.signed(rt, a), b)), checks
+                return s.norm(rt, '%s(%s >> %s) : 0' % (g, a, b)), checks
+            return s.norm(rt, '%s(%s >> %s) : 0' % (g, s.signed(rt, a), b)), checks
         if op in ('and', 'or', 'xor'):
             c = {'and': '&', 'or': '|', 'xor': '^'}[op]
             return s.norm(rt, '%s %s %s' % (a, c, b)), checks
@@ -860,6 +862,7 @@ class Emitter:
         s.tmpn = 0
         s.cur_fn = f
         s.ptrphi = {}
+        s.pz = {}
         # map label -> index
         labels = [b[0] for b in f.blocks]
         s.phis = {}    # label -> list of (dest reg, ty, [(val, predlabel)])
@@ -899,12 +902,51 @@ class Emitter:
             else:
                 seen.add(nxt); stack.append((nxt, iter(succ.get(nxt, []))))
         order.reverse()
+        s.rpo = {l: i for i, l in enumerate(order)}
+        # natural loops: back edge t->h when h does not come after t in RPO; depth(h) = number of loop bodies containing h
+        preds = {}
+        for a in order:
+            for b in succ.get(a, []):
+                preds.setdefault(b, []).append(a)
+        bodies = {}
+        for t in order:
+            for h in succ.get(t, []):
+                if h in s.rpo and s.rpo[h] <= s.rpo[t]:
+                    body = bodies.setdefault(h, {h})
+                    work = [t]
+                    while work:
+                        x = work.pop()
+                        if x in body: continue
+                        body.add(x); work.extend(preds.get(x, []))
+        s.loop_depth = {h: sum(1 for h2, b in bodies.items() if h in b) for h in bodies}
+        s.backedges = []          # in emission order == CBMC's loop numbering within the function
+        # classify each loop header: 'const:N' counted loop compared against the constant N, 'counted' integer induction variable
+        # without a constant limit, 'other' (e.g. pointer chasing).  Lets a check give tight per-kind unwinding bounds.
+        s.loop_kind = {}
+        alltxt = [ln for (_, lines) in f.blocks for ln in lines]
+        for (lab, lines) in f.blocks:
+            h = lab.strip('"')
+            if h not in bodies: continue
+            kind = 'other'
+            for ln in lines:
+                m = re.match(r'\s*(%[-\w.$\"]+) = phi i(\d+) ', ln)
+                if not m: continue
+                ph = re.escape(m.group(1))
+                incs = [m2.group(1) for l2 in alltxt for m2 in [re.match(r'\s*(%[-\w.$\"]+) = (?:add|sub)(?: nuw| nsw)* i\d+ ' + ph + r', (?:1|-1)\b', l2)] if m2]
+                if not incs: continue
+                if kind == 'other': kind = 'counted'
+                for v in [m.group(1)] + incs:
+                    for l2 in alltxt:
+                        m3 = re.search(r'icmp \w+ i\d+ ' + re.escape(v) + r', (\d+)\b', l2)
+                        if m3: kind = 'const:%s' % m3.group(1)
+            s.loop_kind[h] = kind
         byname = {lab.strip('"'): (lab, ins) for (lab, ins) in parsed}
         ordered = [byname[l] for l in order if l in byname]
         for (lab, ins) in ordered:
             s.body.append('%s: ;' % s.lab(lab))
             for i in ins:
                 s.emit_inst(i, lab)
+        s.loops_meta = getattr(s, 'loops_meta', {}); s.loops_meta[cid(f.name)] = s.backedges
         decl_lines = ['  %s %s;' % (t, n) for n, t in s.decls.items()]
         return '%s {\n%s\n%s\n}\n' % (s.proto(f), '\n'.join(decl_lines), '\n'.join(s.body))
 
@@ -924,11 +966,30 @@ class Emitter:
         s.decls[n] = s.cty(ty)
         s.body.append('  %s = %s;' % (n, expr))
 
+    def pzof(s, v):
+        return s.pz.get(v.data) if getattr(v, 'kind', None) == 'reg' else None
+
+    def pz_pure(s, dest, operands, own=(), what=''):
+        """poison flag of a side-effect-free instruction: own poison conditions OR the operands' flags"""
+        terms = list(own) + [x for x in (s.pzof(o) for o in operands) if x]
+        if not terms or dest is None: return
+        n = 'pz_' + cid(dest); s.decls[n] = 'uint8_t'; s.pz[dest] = n
+        s.body.append('  %s = %s;' % (n, ' || '.join('(%s)' % t for t in terms)))
+
+    def pz_use(s, ln):
+        """a side-effecting instruction uses these registers: poison reaching it is undefined behaviour"""
+        for r in set(re.findall(r'%(?:"[^"]*"|[-a-zA-Z$._0-9]+)', ln)):
+            if r in s.pz:
+                s.body.append('  IR2C_UB(!%s, "poison value (signed overflow / over-wide shift) reaches a side effect");' % s.pz[r])
+
     def ubcheck(s, cond, what):
         s.body.append('  IR2C_UB(%s, "%s");' % (cond, what))
 
     def goto(s, frm, to):
         """emit phi copies for edge frm->to then goto"""
+        f_, t_ = frm.lstrip('%').strip('"'), to.lstrip('%').strip('"')
+        if hasattr(s, 'rpo') and f_ in s.rpo and t_ in s.rpo and s.rpo[t_] <= s.rpo[f_]:
+            s.backedges.append({'header': t_, 'depth': s.loop_depth.get(t_, 1), 'kind': s.loop_kind.get(t_, 'other')})
         ph = s.phis.get(to.lstrip('%'), None)
         if ph is None:
             ph = s.phis.get(to, [])
@@ -939,6 +1000,7 @@ class Emitter:
             for k, (v, pl) in enumerate(incoming):
                 if pl.lstrip('%') == frm.lstrip('%'):
                     moves.append((dest, ty, v))
+                    if s.pzof(v): extra.append('IR2C_UB(!%s, "poison value flows into a phi");' % s.pzof(v))
                     if dest in s.ptrphi:
                         d = cid(dest)
                         s.decls['sel_' + d] = 'int'
@@ -987,6 +1049,8 @@ class Emitter:
             return
         _, dest, op, tk, ln = inst
         B = s.body
+        if op not in BIN_OPS and op not in CAST_OPS and op not in ('icmp', 'select', 'getelementptr', 'extractvalue', 'insertvalue', 'freeze', 'nop', 'alloca'):
+            s.pz_use(ln.split('=', 1)[1] if dest else ln)
         if op in BIN_OPS:
             flags = set()
             while tk.peek()[1] in ('nsw', 'nuw', 'exact'):
@@ -994,19 +1058,31 @@ class Emitter:
             ty = parse_type(tk)
             a = parse_const(tk, ty); tk.expect(','); b = parse_const(tk, ty)
             e, checks = s.bin_expr(op, ty, s.val(a), s.val(b), flags)
-            for c in checks: s.ubcheck(c, op)
+            if op in ('udiv', 'sdiv', 'urem', 'srem'):
+                for c in checks: s.ubcheck(c, op)          # division by zero is immediate UB
+                s.pz_pure(dest, [a, b])
+            else:
+                # over-wide shifts and nsw overflow yield POISON, which is UB only when it reaches a side effect
+                # (clang speculates such instructions when it turns branches into selects)
+                s.pz_pure(dest, [a, b], ['!(%s)' % c for c in checks], op)
             s.setreg(dest, ty, e)
         elif op == 'icmp':
             pred = tk.next()[1]
             ty = parse_type(tk); a = parse_const(tk, ty); tk.expect(','); b = parse_const(tk, ty)
+            s.pz_pure(dest, [a, b])
             s.setreg(dest, IntTy(1), s.icmp_expr(pred, ty, s.val(a), s.val(b)))
         elif op in CAST_OPS:
             sty_ = parse_type(tk); x = parse_const(tk, sty_); tk.expect('to'); dty = parse_type(tk)
+            s.pz_pure(dest, [x])
             s.setreg(dest, dty, s.cast_expr(op, sty_, s.val(x), dty))
         elif op == 'select':
             c = parse_typed_value(tk); tk.expect(',')
             a = parse_typed_value(tk); tk.expect(',')
             b = parse_typed_value(tk)
+            pc, pa, pb = s.pzof(c), s.pzof(a), s.pzof(b)
+            if pc or pa or pb:
+                n = 'pz_' + cid(dest); s.decls[n] = 'uint8_t'; s.pz[dest] = n
+                s.body.append('  %s = %s || ((%s) ? %s : %s);' % (n, pc or '0', s.val(c), pa or '0', pb or '0'))
             s.setreg(dest, a.ty, '(%s) ? (%s) : (%s)' % (s.val(c), s.val(a), s.val(b)))
         elif op == 'getelementptr':
             inb = tk.accept('inbounds')
@@ -1016,6 +1092,7 @@ class Emitter:
             while tk.accept(','):
                 iv = parse_typed_value(tk); idx.append((iv.ty, s.val(iv), iv))
             resty = s.gep_result_type(bty, idx)
+            s.pz_pure(dest, [p] + [iv for (_, _, iv) in idx])
             s.setreg(dest, resty, s.gep_expr(bty, s.val(p), idx, resty))
         elif op == 'load':
             atomic = tk.accept('atomic'); vol = tk.accept('volatile')
@@ -1090,6 +1167,7 @@ class Emitter:
             B.append('  IR2C_FENCE("%s");' % order)
         elif op == 'extractvalue':
             a = parse_typed_value(tk)
+            s.pz_pure(dest, [a])
             e = s.val(a); cur = a.ty
             while tk.accept(','):
                 if tk.peek()[0] != 'int': break
@@ -1103,6 +1181,7 @@ class Emitter:
         elif op == 'insertvalue':
             a = parse_typed_value(tk); tk.expect(',')
             v = parse_typed_value(tk)
+            s.pz_pure(dest, [a, v])
             d = cid(dest); s.decls[d] = s.cty(a.ty)
             B.append('  %s = %s;' % (d, s.val(a)))
             e = d; cur = a.ty
@@ -1482,6 +1561,8 @@ def main():
     E.unit = os.path.basename(out)[:-2] if out.endswith('.c') else os.path.basename(out)
     header, body = E.emit()
     open(out, 'w').write(body)
+    import json
+    json.dump(getattr(E, 'loops_meta', {}), open((out[:-2] if out.endswith('.c') else out) + '.loops.json', 'w'))
     open(out[:-2] + '.h' if out.endswith('.c') else out + '.h', 'w').write(header)
     # function inventory for the evidence files
     if '--list' in sys.argv:
